@@ -76,14 +76,14 @@ def _honour_verif_repo():
 
 _honour_verif_repo()
 
-W = {0: 8, 1: 8, 2: 1, 3: 4, 4: 8}
+W = {0: 8, 1: 8, 2: 1, 3: 4, 4: 8, 5: 1}
 DISC = {0: [1, 2, 3, 4, 5, 6, 7, 8], 1: [0xB0, 0xB1, 0xB2, 0xB3, 0xB4, 0xB5, 0xB6, 0xB7], 2: [0x5A], 3: [0xDE, 0xC0, 0xDE, 0xC0],
-        4: [0xA4, 0x53, 0x42, 0x5F, 0x73, 0x65, 0x74, 0x21]}
-PIDB = {0: 21, 1: 21, 2: 22, 3: 23, 4: 21}
+        4: [0xA4, 0x53, 0x42, 0x5F, 0x73, 0x65, 0x74, 0x21], 5: [0]}
+PIDB = {0: 21, 1: 21, 2: 22, 3: 23, 4: 21, 5: 22}
 TYNAME = {0: "Fx{a:u64,b:u32,c:u8,d:bool}", 1: "Bv{vec:Vec<u8>}", 2: "St{name:String}",
           3: "Ns{id:u32,inner:In{flag:bool,label:String},items:Vec<It{k:u16,v:Vec<u8>}>,opt:Option<u64>}",
-          4: "Sb{set:BTreeSet<u8>}"}
-NTYPES = 5
+          4: "Sb{set:BTreeSet<u8>}", 5: "Zd{vec:Vec<u8>} with the all-zero discriminant 0u8"}
+NTYPES = 6
 MAX_INC = 10240
 E_IO = 9001
 E_WRITABLE = 1000
@@ -106,7 +106,7 @@ def parse_value(ty, ints, p):
     if ty == 0:
         a, b, c, d = ints[p:p + 4]
         return (a, b, c, 1 if d else 0), p + 4
-    if ty in (1, 2):
+    if ty in (1, 2, 5):
         return _rd_bytes(ints, p)
     if ty == 4:
         # a set is the sorted list of its distinct elements (case files may list them in any order)
@@ -138,7 +138,7 @@ def value_ints(ty, v):
     """case-file form (explicit byte strings)"""
     if ty == 0:
         return list(v)
-    if ty in (1, 2, 4):
+    if ty in (1, 2, 4, 5):
         return [len(v)] + list(v)
     idv, flag, label, items, opt = v
     out = [idv, flag, len(label)] + list(label) + [len(items)]
@@ -157,7 +157,7 @@ def py_ser(ty, v):
     if ty == 0:
         a, b, c, d = v
         return _le(a, 8) + _le(b, 4) + [c] + [1 if d else 0]
-    if ty in (1, 2):
+    if ty in (1, 2, 5):
         return _le(len(v), 4) + list(v)
     if ty == 4:
         # BTreeSet<u8>: u32 count, then the elements in ascending order
@@ -365,7 +365,7 @@ def _apply_field(ty, k, x, v):
     if ty == 0:
         a, b, c, d = v
         return (a, x, c, d) if k == 3 else (x, b, c, d)
-    if ty == 1:
+    if ty in (1, 5):
         return v + [x] if k == 3 else v[:x]
     if ty == 2:
         return v + [x] if k == 3 else []
@@ -574,7 +574,7 @@ def shrink(c):
     ty = dc["ty"]
 
     def smaller(v):
-        if ty in (1, 2, 4) and len(v) > 0:
+        if ty in (1, 2, 4, 5) and len(v) > 0:
             return v[:len(v) // 2]
         if ty == 3 and (v[2] or v[3]):
             return (v[0], v[1], v[2][:len(v[2]) // 2], v[3][:len(v[3]) // 2], v[4])
@@ -619,7 +619,7 @@ def gen_value(rng, ty, size=None):
         a = rng.choice([0, 1, 255, 256, 2 ** 32, 2 ** 63 + 1, 2 ** 64 - 1, rng.below(2 ** 64)])
         b = rng.choice([0, 1, 65536, 2 ** 32 - 1, rng.below(2 ** 32)])
         return (a, b, rng.below(256), rng.below(2))
-    if ty == 1:
+    if ty in (1, 5):
         return rng.bytes(size)
     if ty == 2:
         return gen_string(rng, size)
@@ -636,7 +636,7 @@ def gen_value(rng, ty, size=None):
 
 def _sized_value(ty, ser_len):
     """a value of types 1-3 whose serialized size is exactly ser_len (>= the type's minimum)"""
-    if ty == 1:
+    if ty in (1, 5):
         return [(7 + 3 * i) % 256 for i in range(ser_len - 4)]
     if ty == 2:
         return [0x61] * (ser_len - 4)
@@ -647,7 +647,7 @@ def _sized_value(ty, ser_len):
     return (5, 1, [0x62] * (ser_len - 14), [], None)
 
 
-MIN_SER = {1: 4, 2: 4, 3: 14, 4: 4}
+MIN_SER = {1: 4, 2: 4, 3: 14, 4: 4, 5: 4}
 MAX_SER = {4: 4 + 256}          # the other variable-size types are unbounded (directed 10 KiB growth cases: types 1-3)
 
 
@@ -721,7 +721,7 @@ def gen_raw(rng, ty):
         # invalid payloads per type: bool byte 2 / huge length / invalid UTF-8 / Option tag 2
         if ty == 0:
             return disc + s[:-1] + [rng.range(2, 255)]
-        if ty in (1, 4):
+        if ty in (1, 4, 5):
             return disc + _le(len(v) + rng.range(1, 2 ** 31), 4) + v
         if ty == 2:
             b = rng.choice(BAD_UTF8)
@@ -746,11 +746,11 @@ def gen_instr(rng, ty, force_wr=None):
             ops.append((k, gen_value(rng, ty)))
         elif k == 3:
             x = {0: rng.below(2 ** 32), 1: rng.below(256), 2: rng.range(0, 127), 3: rng.below(65536),
-                 4: rng.below(16 if rng.chance(1, 2) else 256)}[ty]
+                 4: rng.below(16 if rng.chance(1, 2) else 256), 5: rng.below(256)}[ty]
             ops.append((k, x))
         elif k == 4:
             x = {0: rng.below(2 ** 64), 1: rng.range(0, 12), 2: 0, 3: rng.below(2 ** 64),
-                 4: rng.below(16 if rng.chance(1, 2) else 256)}[ty]
+                 4: rng.below(16 if rng.chance(1, 2) else 256), 5: rng.range(0, 12)}[ty]
             ops.append((k, x))
         elif k == 8:
             ops.append((k, 0 if rng.chance(1, 4) else 1))
@@ -761,7 +761,7 @@ def gen_instr(rng, ty, force_wr=None):
 
 def _directed(add):
     """size-change sequences around the 10 KiB realloc allowance"""
-    for ty in (1, 2, 3):
+    for ty in (1, 2, 3, 5):
         m = MIN_SER[ty]
         w = W[ty]
         for s0 in (m, m + 5, 3000):
@@ -886,7 +886,7 @@ def gen_cases(rng, tier):
                 for k in range(1, 10):
                     if k == 9 and not wr:
                         continue
-                    x = v1 if k in (1, 2) else ({0: 5, 1: 5, 2: 65, 3: 5, 4: 5}[ty] if k in (3, 4) else (1 if k == 8 else None))
+                    x = v1 if k in (1, 2) else ({0: 5, 1: 5, 2: 65, 3: 5, 4: 5, 5: 5}[ty] if k in (3, 4) else (1 if k == 8 else None))
                     for cl in ((False, True) if wr else (False,)):
                         add({"ty": ty, "foreign": foreign, "init": ("value", v0), "instrs": [
                             {"writable": wr, "close_cleanup": cl, "ops": [(k, x)]},
